@@ -22,8 +22,8 @@ use arrow_avro::reader::ReaderBuilder;
 use arrow_avro::schema::{AvroSchema, Fingerprint, SCHEMA_METADATA_KEY, SchemaStore};
 use arrow_avro::writer::format::{AvroBinaryFormat, AvroOcfFormat, AvroSoeFormat};
 use arrow_avro::writer::WriterBuilder;
-use arrow_buffer::{NullBuffer, OffsetBuffer, ScalarBuffer};
-use arrow_schema::{DataType, Field, Fields, Schema, UnionFields, UnionMode};
+use arrow_buffer::{IntervalMonthDayNano, NullBuffer, OffsetBuffer, ScalarBuffer, i256};
+use arrow_schema::{DataType, Field, Fields, Schema, TimeUnit, UnionFields, UnionMode};
 use std::collections::HashMap;
 use std::sync::Arc;
 use vcommon::*;
@@ -42,6 +42,16 @@ enum S {
     Str,
     Fixed(usize),
     Enum(usize),
+    /// Avro decimal(precision, scale): bytes-backed (`None`) or fixed(n)-backed; Arrow Decimal128 for
+    /// precision <= 38, Decimal256 above (what the reader produces without `small_decimals`)
+    Dec(u8, i8, Option<usize>),
+    /// logical types over int / long: 1 date, 2 time-millis, 3 time-micros, 4/5 timestamp-millis/micros,
+    /// 6/7 local-timestamp-millis/micros, 8/9 timestamp-nanos / local-timestamp-nanos
+    Logical(u8),
+    /// uuid: Arrow FixedSizeBinary(16) with `logicalType=uuid` field metadata <-> Avro string
+    Uuid,
+    /// duration: Arrow Interval(MonthDayNano) <-> Avro fixed(12)
+    Duration,
     Opt(bool, Box<S>), // null_first, inner
     Union(Vec<S>),
     Rec(Vec<S>),
@@ -61,6 +71,9 @@ enum V {
     Str(Vec<u8>),
     Fixed(Vec<u8>),
     Enum(i32),
+    /// unscaled value and the byte width of the Arrow decimal type (16 or 32)
+    Dec(i256, usize),
+    Dur(u32, u32, u32),
     None,
     Some(Box<V>),
     Union(usize, Box<V>),
@@ -83,6 +96,11 @@ fn show_s(s: &S) -> String {
         S::Str => "s".into(),
         S::Fixed(n) => format!("x{n}"),
         S::Enum(n) => format!("e{n}"),
+        S::Dec(p, sc, None) => format!("D{p}.{sc}"),
+        S::Dec(p, sc, Some(n)) => format!("G{n}.{p}.{sc}"),
+        S::Logical(k) => format!("t{k}"),
+        S::Uuid => "U".into(),
+        S::Duration => "I".into(),
         S::Opt(true, i) => format!("?{}", show_s(i)),
         S::Opt(false, i) => format!("!{}", show_s(i)),
         S::Union(b) => format!("u({})", b.iter().map(show_s).collect::<Vec<_>>().join(",")),
@@ -107,6 +125,8 @@ fn show_v(v: &V) -> String {
         V::Str(b) => format!("s{};", hx(b)),
         V::Fixed(b) => format!("x{};", hx(b)),
         V::Enum(i) => format!("e{i};"),
+        V::Dec(v, w) => format!("D{w}:{v};"),
+        V::Dur(m, d, ms) => format!("I{m}.{d}.{ms};"),
         V::None => "_".into(),
         V::Some(v) => format!("+{}", show_v(v)),
         V::Union(i, v) => format!("u{i}:{}", show_v(v)),
@@ -127,6 +147,8 @@ fn canon_v(v: &V) -> String {
         V::Double(b) => format!("d{};", b),
         V::Bytes(b) | V::Str(b) => format!("y{};", hx(b)),
         V::Fixed(b) => format!("x{};", hx(b)),
+        V::Dec(v, w) => format!("D{};", if *w == 16 { hx(&v.to_i128().unwrap().to_be_bytes()) } else { hx(&v.to_be_bytes()) }),
+        V::Dur(m, d, ms) => format!("x{}{}{};", hx(&m.to_le_bytes()), hx(&d.to_le_bytes()), hx(&ms.to_le_bytes())),
         V::None => "_".into(),
         V::Some(v) => format!("+{}", canon_v(v)),
         V::Union(i, v) => format!("u{i}:{}", canon_v(v)),
@@ -187,6 +209,21 @@ impl<'a> P<'a> {
             b's' => S::Str,
             b'x' => S::Fixed(self.digits()),
             b'e' => S::Enum(self.digits()),
+            b'D' => {
+                let p = self.digits();
+                assert_eq!(self.next(), b'.');
+                S::Dec(p as u8, self.digits() as i8, None)
+            }
+            b'G' => {
+                let n = self.digits();
+                assert_eq!(self.next(), b'.');
+                let p = self.digits();
+                assert_eq!(self.next(), b'.');
+                S::Dec(p as u8, self.digits() as i8, Some(n))
+            }
+            b't' => S::Logical(self.digits() as u8),
+            b'U' => S::Uuid,
+            b'I' => S::Duration,
             b'?' => S::Opt(true, Box::new(self.schema())),
             b'!' => S::Opt(false, Box::new(self.schema())),
             b'a' => S::Arr(Box::new(self.schema())),
@@ -228,6 +265,14 @@ impl<'a> P<'a> {
             b'y' => V::Bytes(self.hextok()),
             b's' => V::Str(self.hextok()),
             b'x' => V::Fixed(self.hextok()),
+            b'D' => {
+                let w: usize = self.until(b':').parse().unwrap();
+                V::Dec(i256::from_string(self.until(b';')).expect("decimal"), w)
+            }
+            b'I' => {
+                let p: Vec<u32> = self.until(b';').split('.').map(|x| x.parse().unwrap()).collect();
+                V::Dur(p[0], p[1], p[2])
+            }
             b'u' => {
                 let i = self.until(b':').parse().unwrap();
                 V::Union(i, Box::new(self.value()))
@@ -296,6 +341,20 @@ fn avro_json(s: &S, k: &mut usize) -> String {
             let syms: Vec<String> = (0..*n).map(|i| format!("\"S{i}\"")).collect();
             format!("{{\"type\":\"enum\",\"name\":\"E{}\",\"symbols\":[{}]}}", k, syms.join(","))
         }
+        S::Dec(p, sc, None) => format!("{{\"type\":\"bytes\",\"logicalType\":\"decimal\",\"precision\":{},\"scale\":{}}}", p, sc),
+        S::Dec(p, sc, Some(n)) => {
+            *k += 1;
+            format!("{{\"type\":\"fixed\",\"name\":\"X{}\",\"size\":{},\"logicalType\":\"decimal\",\"precision\":{},\"scale\":{}}}", k, n, p, sc)
+        }
+        S::Logical(t) => {
+            let (base, lt) = logical_names(*t);
+            format!("{{\"type\":\"{}\",\"logicalType\":\"{}\"}}", base, lt)
+        }
+        S::Uuid => "{\"type\":\"string\",\"logicalType\":\"uuid\"}".into(),
+        S::Duration => {
+            *k += 1;
+            format!("{{\"type\":\"fixed\",\"name\":\"X{}\",\"size\":12,\"logicalType\":\"duration\"}}", k)
+        }
         S::Opt(true, i) => format!("[\"null\",{}]", avro_json(i, k)),
         S::Opt(false, i) => format!("[{},\"null\"]", avro_json(i, k)),
         S::Union(b) => format!("[{}]", b.iter().map(|x| avro_json(x, k)).collect::<Vec<_>>().join(",")),
@@ -309,8 +368,23 @@ fn avro_json(s: &S, k: &mut usize) -> String {
         S::Map(i) => format!("{{\"type\":\"map\",\"values\":{}}}", avro_json(i, k)),
     }
 }
+fn logical_names(t: u8) -> (&'static str, &'static str) {
+    match t {
+        1 => ("int", "date"),
+        2 => ("int", "time-millis"),
+        3 => ("long", "time-micros"),
+        4 => ("long", "timestamp-millis"),
+        5 => ("long", "timestamp-micros"),
+        6 => ("long", "local-timestamp-millis"),
+        7 => ("long", "local-timestamp-micros"),
+        8 => ("long", "timestamp-nanos"),
+        _ => ("long", "local-timestamp-nanos"),
+    }
+}
 fn field_of(name: &str, s: &S) -> Field {
     match s {
+        S::Uuid => Field::new(name, dtype(s), false).with_metadata(HashMap::from([("logicalType".to_string(), "uuid".to_string())])),
+        S::Opt(_, i) if **i == S::Uuid => Field::new(name, dtype(i), true).with_metadata(HashMap::from([("logicalType".to_string(), "uuid".to_string())])),
         S::Opt(_, i) => Field::new(name, dtype(i), true),
         S::Null => Field::new(name, DataType::Null, true),
         // a union with a null branch has logical nulls: Arrow requires the field to be nullable
@@ -333,6 +407,20 @@ fn dtype(s: &S) -> DataType {
         S::Str => DataType::Utf8,
         S::Fixed(n) => DataType::FixedSizeBinary(*n as i32),
         S::Enum(_) => DataType::Dictionary(Box::new(DataType::Int32), Box::new(DataType::Utf8)),
+        S::Dec(p, sc, _) => if *p <= 38 { DataType::Decimal128(*p, *sc) } else { DataType::Decimal256(*p, *sc) },
+        S::Logical(t) => match t {
+            1 => DataType::Date32,
+            2 => DataType::Time32(TimeUnit::Millisecond),
+            3 => DataType::Time64(TimeUnit::Microsecond),
+            4 => DataType::Timestamp(TimeUnit::Millisecond, Some("+00:00".into())),
+            5 => DataType::Timestamp(TimeUnit::Microsecond, Some("+00:00".into())),
+            6 => DataType::Timestamp(TimeUnit::Millisecond, None),
+            7 => DataType::Timestamp(TimeUnit::Microsecond, None),
+            8 => DataType::Timestamp(TimeUnit::Nanosecond, Some("+00:00".into())),
+            _ => DataType::Timestamp(TimeUnit::Nanosecond, None),
+        },
+        S::Uuid => DataType::FixedSizeBinary(16),
+        S::Duration => DataType::Interval(arrow_schema::IntervalUnit::MonthDayNano),
         S::Opt(_, i) => dtype(i),
         S::Union(b) => DataType::Union(union_fields(b), UnionMode::Dense),
         S::Rec(fs) => DataType::Struct(Fields::from(fs.iter().enumerate().map(|(i, x)| field_of(&format!("f{i}"), x)).collect::<Vec<_>>())),
@@ -352,6 +440,10 @@ fn default_v(s: &S) -> V {
         S::Str => V::Str(vec![]),
         S::Fixed(n) => V::Fixed(vec![0; *n]),
         S::Enum(_) => V::Enum(0),
+        S::Dec(p, _, _) => V::Dec(i256::ZERO, if *p <= 38 { 16 } else { 32 }),
+        S::Logical(t) => if *t <= 2 { V::Int(0) } else { V::Long(0) },
+        S::Uuid => V::Fixed(vec![0; 16]),
+        S::Duration => V::Dur(0, 0, 0),
         S::Opt(_, _) => V::None,
         S::Union(b) => V::Union(0, Box::new(default_v(&b[0]))),
         S::Rec(fs) => V::Rec(fs.iter().map(default_v).collect()),
@@ -387,6 +479,37 @@ fn build(s: &S, vals: &[V]) -> ArrayRef {
             let values = StringArray::from_iter_values((0..*n).map(|i| format!("S{i}")));
             Arc::new(DictionaryArray::<Int32Type>::try_new(keys, Arc::new(values)).unwrap())
         }
+        S::Dec(p, sc, _) => {
+            let vs = vals.iter().map(|v| if let V::Dec(x, _) = v { *x } else { panic!("dec") });
+            if *p <= 38 {
+                Arc::new(Decimal128Array::from_iter_values(vs.map(|x| x.to_i128().expect("i128"))).with_precision_and_scale(*p, *sc).unwrap())
+            } else {
+                Arc::new(Decimal256Array::from_iter_values(vs).with_precision_and_scale(*p, *sc).unwrap())
+            }
+        }
+        S::Logical(t) => {
+            let i32s = || vals.iter().map(|v| if let V::Int(i) = v { *i } else { panic!("logical int") }).collect::<Vec<i32>>();
+            let i64s = || vals.iter().map(|v| if let V::Long(i) = v { *i } else { panic!("logical long") }).collect::<Vec<i64>>();
+            match t {
+                1 => Arc::new(Date32Array::from(i32s())),
+                2 => Arc::new(Time32MillisecondArray::from(i32s())),
+                3 => Arc::new(Time64MicrosecondArray::from(i64s())),
+                4 => Arc::new(TimestampMillisecondArray::from(i64s()).with_timezone("+00:00")),
+                5 => Arc::new(TimestampMicrosecondArray::from(i64s()).with_timezone("+00:00")),
+                6 => Arc::new(TimestampMillisecondArray::from(i64s())),
+                7 => Arc::new(TimestampMicrosecondArray::from(i64s())),
+                8 => Arc::new(TimestampNanosecondArray::from(i64s()).with_timezone("+00:00")),
+                _ => Arc::new(TimestampNanosecondArray::from(i64s())),
+            }
+        }
+        S::Uuid => {
+            let mut b = FixedSizeBinaryBuilder::new(16);
+            for v in vals {
+                if let V::Fixed(x) = v { b.append_value(x).unwrap() } else { panic!("uuid") }
+            }
+            Arc::new(b.finish())
+        }
+        S::Duration => Arc::new(IntervalMonthDayNanoArray::from(vals.iter().map(|v| if let V::Dur(m, d, ms) = v { IntervalMonthDayNano::new(*m as i32, *d as i32, *ms as i64 * 1_000_000) } else { panic!("dur") }).collect::<Vec<_>>())),
         S::Opt(_, inner) if **inner == S::BoolSliced => {
             // nullable boolean column held as a sliced array: validity and values share the bit offset 3
             let mut padded: Vec<Option<bool>> = vec![Some(true), None, Some(false)];
@@ -504,6 +627,30 @@ fn extract(s: &S, arr: &dyn Array, i: usize) -> Result<V, String> {
             t => return Err(format!("str: {t:?}")),
         },
         S::Fixed(_) => V::Fixed(arr.as_fixed_size_binary_opt().ok_or("fixed")?.value(i).to_vec()),
+        S::Dec(..) | S::Logical(_) | S::Duration if arr.data_type() != &dtype(s) => return Err(format!("type {:?}, expected {:?}", arr.data_type(), dtype(s))),
+        S::Dec(p, _, _) => {
+            if *p <= 38 {
+                V::Dec(i256::from_i128(arr.as_primitive::<Decimal128Type>().value(i)), 16)
+            } else {
+                V::Dec(arr.as_primitive::<Decimal256Type>().value(i), 32)
+            }
+        }
+        S::Logical(t) => match t {
+            1 => V::Int(arr.as_primitive::<Date32Type>().value(i)),
+            2 => V::Int(arr.as_primitive::<Time32MillisecondType>().value(i)),
+            3 => V::Long(arr.as_primitive::<Time64MicrosecondType>().value(i)),
+            4 | 6 => V::Long(arr.as_primitive::<TimestampMillisecondType>().value(i)),
+            5 | 7 => V::Long(arr.as_primitive::<TimestampMicrosecondType>().value(i)),
+            _ => V::Long(arr.as_primitive::<TimestampNanosecondType>().value(i)),
+        },
+        S::Uuid => V::Fixed(arr.as_fixed_size_binary_opt().ok_or("uuid")?.value(i).to_vec()),
+        S::Duration => {
+            let x = arr.as_primitive::<IntervalMonthDayNanoType>().value(i);
+            if x.nanoseconds % 1_000_000 != 0 || x.nanoseconds < 0 {
+                return Err("duration nanos".into());
+            }
+            V::Dur(x.months as u32, x.days as u32, (x.nanoseconds / 1_000_000) as u32)
+        }
         S::Enum(_) => {
             let d = arr.as_dictionary_opt::<Int32Type>().ok_or("enum")?;
             let k = d.keys().value(i);
@@ -671,6 +818,15 @@ fn s_of_json(j: &serde_json::Value) -> Option<S> {
                 S::Opt(false, Box::new(bs[0].clone()))
             } else {
                 S::Union(bs)
+            }
+        }
+        J::Object(o) if o.get("logicalType").and_then(|x| x.as_str()).is_some_and(|lt| lt == "decimal" || lt == "uuid" || lt == "duration" || (1..=9).any(|t| logical_names(t).1 == lt)) => {
+            let lt = o.get("logicalType")?.as_str()?;
+            match lt {
+                "decimal" => S::Dec(o.get("precision")?.as_u64()? as u8, o.get("scale").and_then(|x| x.as_u64()).unwrap_or(0) as i8, if o.get("type")?.as_str()? == "fixed" { Some(o.get("size")?.as_u64()? as usize) } else { None }),
+                "uuid" => S::Uuid,
+                "duration" => S::Duration,
+                _ => S::Logical((1..=9).find(|t| logical_names(*t).1 == lt)?),
             }
         }
         J::Object(o) => match o.get("type")? {
@@ -943,6 +1099,16 @@ fn run_case(line: &str, sink: &mut Sink, tags: &str) -> String {
 
 // ---------------------------------------------------------------- generator
 fn gen_schema(rng: &mut Rng, depth: usize, allow_opt: bool, allow_union: bool) -> S {
+    // the logical types the writer supports: decimal (bytes / fixed backed, Decimal128 / Decimal256),
+    // date, time, timestamps, uuid, duration — one leaf in four
+    if rng.chance(1, 4) {
+        return match rng.below(10) {
+            0..=3 => gen_decimal_schema(rng),
+            4..=7 => S::Logical(1 + rng.below(9) as u8),
+            8 => S::Uuid,
+            _ => S::Duration,
+        };
+    }
     let r = rng.below(if depth == 0 { 10 } else { 17 });
     match r {
         0 => {
@@ -979,7 +1145,7 @@ fn gen_schema(rng: &mut Rng, depth: usize, allow_opt: bool, allow_union: bool) -
             while kinds.len() < n && tries < 20 {
                 tries += 1;
                 let c = gen_schema(rng, depth - 1, false, false);
-                let dup = kinds.iter().any(|k| std::mem::discriminant(&unslice(k)) == std::mem::discriminant(&unslice(&c)) && !matches!(c, S::Fixed(_) | S::Enum(_) | S::Rec(_)));
+                let dup = kinds.iter().any(|k| avro_kind(k) == avro_kind(&c) && avro_kind(&c) != 255);
                 if !dup {
                     kinds.push(c);
                 }
@@ -990,6 +1156,92 @@ fn gen_schema(rng: &mut Rng, depth: usize, allow_opt: bool, allow_union: bool) -
             if kinds.len() < 2 { S::Int } else { S::Union(kinds) }
         }
         _ => S::Str,
+    }
+}
+/// the unnamed Avro type a schema node is (two of the same kind cannot share a union); 255 = named type
+fn avro_kind(s: &S) -> u8 {
+    match s {
+        S::Null => 0,
+        S::Bool | S::BoolSliced => 1,
+        S::Int => 2,
+        S::Logical(t) => if *t <= 2 { 2 } else { 3 },
+        S::Long => 3,
+        S::Float => 4,
+        S::Double => 5,
+        S::Bytes | S::Dec(_, _, None) => 6,
+        S::Str | S::Uuid => 7,
+        S::Arr(_) => 8,
+        S::Map(_) => 9,
+        S::Opt(..) | S::Union(_) => 10,
+        S::Fixed(_) | S::Enum(_) | S::Rec(_) | S::Dec(_, _, Some(_)) | S::Duration => 255,
+    }
+}
+/// smallest fixed size whose capacity covers `p` digits (Avro: max precision = floor(log10(2^(8n-1)-1)))
+fn min_fixed_for_precision(p: u8) -> usize {
+    const MAX_P: [u8; 32] = [2, 4, 6, 9, 11, 14, 16, 18, 21, 23, 26, 28, 31, 33, 35, 38, 40, 43, 45, 47, 50, 52, 55, 57, 59, 62, 64, 67, 69, 71, 74, 76];
+    1 + MAX_P.iter().position(|m| *m >= p).unwrap()
+}
+fn gen_decimal_schema(rng: &mut Rng) -> S {
+    let p = *rng.pick(&[1u8, 2, 3, 5, 9, 10, 18, 19, 28, 38, 39, 50, 76]);
+    let sc = *rng.pick(&[0i8, 0, 1, 2]).min(&(p as i8));
+    match rng.below(3) {
+        0 => {
+            // fixed-backed: the minimal size, a wider one (sign extension), exactly 16 / 32, or wider than the Arrow type
+            let lo = min_fixed_for_precision(p);
+            let w = if p <= 38 { 16 } else { 32 };
+            let n = *rng.pick(&[lo, lo + 1, w, (w + 4).min(32), lo.max(w.min(lo + 7))]);
+            S::Dec(p, sc, Some(n.clamp(lo, 32)))
+        }
+        _ => S::Dec(p, sc, None),
+    }
+}
+fn pow_i256(base: i128, e: u32) -> i256 {
+    let mut r = i256::ONE;
+    for _ in 0..e {
+        r = r.checked_mul(i256::from_i128(base)).unwrap();
+    }
+    r
+}
+/// decimal values at the two's-complement length boundaries: ±2^(8k-1) and neighbours, ±255/±256, ±(2^(8k)-1),
+/// 0x80FF.., 10^p-1; everything is kept inside the declared precision
+fn gen_decimal_value(rng: &mut Rng, p: u8) -> i256 {
+    let max = pow_i256(10, p as u32).checked_sub(i256::ONE).unwrap();
+    let bits_max = if p <= 38 { 15 } else { 31 };
+    for _ in 0..8 {
+        let k = 1 + rng.below(bits_max) as u32;
+        let half = pow_i256(2, 8 * k - 1); // 2^(8k-1)
+        let full = pow_i256(2, 8 * k);
+        let cand = match rng.below(14) {
+            0 => half,                                                    // 128, 32768, … needs the 0x00 sign byte
+            1 => half.checked_sub(i256::ONE).unwrap(),                    // 127, 32767
+            2 => half.checked_add(i256::ONE).unwrap(),                    // 129
+            3 => half.wrapping_neg(),                                     // -128
+            4 => half.wrapping_neg().checked_sub(i256::ONE).unwrap(),     // -129 needs the 0xFF sign byte
+            5 => half.wrapping_neg().checked_sub(i256::from_i128(2)).unwrap(),
+            6 => half.checked_sub(i256::from_i128(2)).unwrap(),               // 126
+            7 => half.checked_add(half.checked_sub(i256::ONE).unwrap()).unwrap(),              // 2^(8k) - 1  (255, 65535)
+            8 => full,                                                                           // 256
+            9 => full.wrapping_neg(),
+            10 => half.checked_add(pow_i256(2, 8 * (k - 1)).checked_sub(i256::ONE).unwrap()).unwrap(), // 0x80FF… (33023)
+            11 => half.checked_add(pow_i256(2, 8 * (k - 1))).unwrap(),                                   // 0x8100… (33024)
+            12 => half.checked_add(pow_i256(2, 8 * (k - 1))).unwrap().wrapping_neg().checked_sub(i256::ONE).unwrap(), // -33025
+            _ => half.checked_add(pow_i256(2, 8 * (k - 1)).checked_sub(i256::ONE).unwrap()).unwrap().wrapping_neg().checked_sub(i256::ONE).unwrap(), // -33024
+        };
+        if cand <= max && cand >= max.wrapping_neg() {
+            return cand;
+        }
+    }
+    match rng.below(6) {
+        0 => max,
+        1 => max.wrapping_neg(),
+        2 => i256::ZERO,
+        3 => i256::ONE,
+        4 => i256::MINUS_ONE,
+        _ => {
+            let r = i256::from_parts(((rng.next_u64() as u128) << 64) | rng.next_u64() as u128, (((rng.next_u64() as u128) << 64) | rng.next_u64() as u128) as i128 >> 1);
+            let m = r.checked_rem(max.checked_add(i256::ONE).unwrap()).unwrap();
+            m
+        }
     }
 }
 const I32B: [i64; 12] = [0, 1, -1, 63, 64, -64, -65, 8191, 8192, i32::MAX as i64, i32::MIN as i64, 1 << 20];
@@ -1018,6 +1270,15 @@ fn gen_value(rng: &mut Rng, s: &S, budget: &mut i64) -> V {
         S::Str => V::Str(gen_string(rng)),
         S::Fixed(n) => V::Fixed(rng.bytes(*n)),
         S::Enum(n) => V::Enum(rng.usize(*n) as i32),
+        S::Dec(p, _, _) => V::Dec(gen_decimal_value(rng, *p), if *p <= 38 { 16 } else { 32 }),
+        S::Logical(t) => match t {
+            1 => V::Int(rng.pick_or(&I32B, i32::MIN as i64, i32::MAX as i64) as i32),
+            2 => V::Int(rng.pick_or(&[0, 1, 86_399_999, 63, 64, 8192], 0, 86_399_999) as i32),
+            3 => V::Long(rng.pick_or(&[0, 1, 86_399_999_999, 63, 64, 1 << 31], 0, 86_399_999_999)),
+            _ => V::Long(if rng.chance(1, 2) { *rng.pick(&I64B) } else { rng.next_u64() as i64 >> rng.below(64) }),
+        },
+        S::Uuid => V::Fixed(if rng.chance(1, 4) { vec![*rng.pick(&[0u8, 0xff, 0x0a, 0xa0]); 16] } else { rng.bytes(16) }),
+        S::Duration => V::Dur(*rng.pick(&[0u32, 1, 12, u32::MAX, i32::MAX as u32]), *rng.pick(&[0u32, 1, 31, i32::MAX as u32, u32::MAX]), *rng.pick(&[0u32, 1, 999, 86_400_000, u32::MAX])),
         S::Opt(_, i) => {
             if rng.chance(1, 3) { V::None } else { V::Some(Box::new(gen_value(rng, i, budget))) }
         }
@@ -1055,6 +1316,15 @@ fn schema_tags(top: &[S]) -> String {
         ("enum", &|x: &S| matches!(x, S::Enum(_))),
         ("fixed", &|x: &S| matches!(x, S::Fixed(_))),
         ("nullcol", &|x: &S| matches!(x, S::Null)),
+        ("decimal-bytes-128", &|x: &S| matches!(x, S::Dec(p, _, None) if *p <= 38)),
+        ("decimal-bytes-256", &|x: &S| matches!(x, S::Dec(p, _, None) if *p > 38)),
+        ("decimal-fixed-128", &|x: &S| matches!(x, S::Dec(p, _, Some(_)) if *p <= 38)),
+        ("decimal-fixed-256", &|x: &S| matches!(x, S::Dec(p, _, Some(_)) if *p > 38)),
+        ("date-time", &|x: &S| matches!(x, S::Logical(1..=3))),
+        ("timestamp-utc", &|x: &S| matches!(x, S::Logical(4 | 5 | 8))),
+        ("timestamp-local", &|x: &S| matches!(x, S::Logical(6 | 7 | 9))),
+        ("uuid", &|x: &S| matches!(x, S::Uuid)),
+        ("duration", &|x: &S| matches!(x, S::Duration)),
     ] {
         if has(&s, f) {
             t.push_str(" t:");
@@ -1077,7 +1347,23 @@ fn put_long(out: &mut Vec<u8>, v: i64) {
 }
 fn gen_case(rng: &mut Rng) -> (String, String) {
     let nf = 1 + rng.usize(4);
-    let top: Vec<S> = (0..nf).map(|_| gen_schema(rng, 2, true, true)).collect();
+    let top: Vec<S> = if rng.chance(1, 5) {
+        // decimal-centric schema (dense, every run): plain, nullable, in arrays, maps and records
+        (0..nf)
+            .map(|_| {
+                let d = gen_decimal_schema(rng);
+                match rng.below(6) {
+                    0 | 1 => d,
+                    2 => S::Opt(rng.chance(3, 4), Box::new(d)),
+                    3 => S::Arr(Box::new(d)),
+                    4 => S::Rec(vec![d, gen_decimal_schema(rng)]),
+                    _ => S::Map(Box::new(S::Opt(true, Box::new(d)))),
+                }
+            })
+            .collect()
+    } else {
+        (0..nf).map(|_| gen_schema(rng, 2, true, true)).collect()
+    };
     let sch = show_s(&S::Rec(top.clone()));
     let nrows = *rng.pick(&[0usize, 1, 1, 2, 3, 8]);
     let mut gen_rows = |rng: &mut Rng, n: usize| -> Vec<Vec<V>> {
